@@ -55,6 +55,10 @@ Step ==
                            !.quoted = @ + (IF p.verb \in {"MAIL", "RCPT"} /\ \E i \in DOMAIN Ev.b : Ev.b[i] = 34 THEN 1 ELSE 0),
                            !.params = @ + (IF p.ok /\ p.verb \in {"MAIL", "RCPT"} THEN Len(p.path.params) ELSE 0)]
             /\ UNCHANGED <<b, viols>>
+       [] Ev.ev = "handover" ->     \* a second mail.Client (with its own options) goes on using the same smtp connection
+            /\ b' = [mailexp |-> b.mailexp2, rcptexp |-> b.rcptexp2, dsn |-> b.dsn2] @@ b
+            /\ nrcpt' = 0 /\ nmail' = 0
+            /\ UNCHANGED <<viol1, viols, stats>>
        [] Ev.ev = "end" ->
             \* every recipient that was put on the message got its RCPT (unless nothing was sent at all)
             /\ viols' = viols \cup {[t |-> b.t, p |-> p] : p \in viol1 \cup F("C05_AllRecipientsSent", nmail = 0 \/ nrcpt = Len(b.rcptexp))}
